@@ -14,7 +14,7 @@ ACCS = {
 class Gen:
     def __init__(self, rng: random.Random, n_accs=1, n_fields=3, max_depth=3, max_inv=6,
                  launch_vals=False, carried=True, effects=True, pre_threaded=False, chains=False,
-                 one_setup_per_loop_nest=False, acc_specs=None, relaunch=True):
+                 one_setup_per_loop_nest=False, acc_specs=None, relaunch=True, flat_loops=False, index_vals=False):
         self.rng = rng
         self.acc_specs = acc_specs
         if acc_specs:
@@ -37,6 +37,9 @@ class Gen:
         self.nest_used = None  # accelerators already invoked in the current outermost loop nest
         self.last_vals = {}
         self.relaunch = relaunch
+        self.index_vals = index_vals
+        self.flat_loops = flat_loops      # loops are never nested in loops (any number of setups per loop body)
+        self.loop_depth = 0
 
     def fresh(self, p="x"):
         self.n += 1
@@ -83,10 +86,17 @@ class Gen:
                 vals.append(self.value(ind, p))
         self.last_vals[acc] = list(vals)
         s, t = self.fresh("s"), self.fresh("t")
+        # index-typed values (two arguments of one block): the lowering has to bring each of them to the register width itself
+        tys = {}
+        if self.index_vals:
+            for j in range(len(vals)):
+                if self.rng.random() < 0.12:
+                    vals[j] = self.rng.choice(["%n0", "%n1"])
+                    tys[vals[j]] = "index"
         pairs = list(zip(fs, vals))
         if self.rng.random() < 0.3:
             self.rng.shuffle(pairs)          # fields are named: the order in which a setup lists them is free
-        args = ", ".join(f'"{f}" = {v} : i32' for f, v in pairs)
+        args = ", ".join(f'"{f}" = {v} : {tys.get(v, "i32")}' for f, v in pairs)
         self.emit(ind, f'{s} = accfg.setup "{acc}" to ({args}) : !accfg.state<"{acc}">')
         if self.acc_specs:
             ln = list(self.acc_specs[acc]["launch"])
@@ -137,6 +147,10 @@ class Gen:
                 pool = pool + [v]
 
     def for_loop(self, ind, depth, pool, ivpool):
+        if self.flat_loops and self.loop_depth >= 1:
+            v = self.fresh()
+            self.emit(ind, f"{v} = arith.addi {self.rng.choice(pool)}, {self.rng.choice(pool)} : i32")
+            return [v]
         lb = self.rng.choice(["%c0", "%c0", "%c1", "%n1"])
         ub = self.rng.choice(["%c2", "%c3", "%n0", "%n0", "%n0"])
         st = self.rng.choice(["%c1", "%c1", "%c2"])
@@ -157,7 +171,9 @@ class Gen:
         outermost = self.nest_used is None
         if outermost:
             self.nest_used = set()
+        self.loop_depth += 1
         self.block(ind + 1, depth + 1, pool, ivpool + inner_iv)
+        self.loop_depth -= 1
         if outermost:
             self.nest_used = None
         if carried:
